@@ -183,7 +183,7 @@ def _pool_run(jobs, workers, deadline_each=900):
             for f, (j, t0) in pending.items():
                 if now - t0 > deadline_each:
                     raise HarnessError('block %r exceeded %ds wall' % (j[:3], deadline_each))
-    finally:
+    except BaseException:
         procs = list((getattr(ex, '_processes', None) or {}).values())
         ex.shutdown(wait=False, cancel_futures=True)
         for p in procs:
@@ -191,6 +191,9 @@ def _pool_run(jobs, workers, deadline_each=900):
                 p.kill()
             except Exception:
                 pass
+        raise
+    else:
+        ex.shutdown(wait=True)
 
 
 def _fresh_interpreter_digests(prop, seed, tier, n, root, hashseed):
@@ -441,3 +444,53 @@ def write_evidence(mod, tier, seed, total, nfixed, wall, nreported, nviol, known
         fh.write(json.dumps(doc, indent=1, sort_keys=True, default=core._json_default))
         fh.write('\n')
     os.replace(tmp, path)
+
+
+def selftest(mod, tier, seed, root, n=200):
+    """Determinism and reach self-test (DESIGN 2.3): exit 0 ok, 2 harness error."""
+    global _MOD, _TIER, _SEED
+    _MOD, _TIER, _SEED = mod, tier, seed
+    print('selftest %s: %d seeds, same process twice, fresh interpreters under two hash seeds, 1 vs 16 workers'
+          % (mod.PROPERTY, n), flush=True)
+    try:
+        a = digests_local(mod, seed, tier, n)
+        b = digests_local(mod, seed, tier, n)
+        bad = [i for i in a if a[i] != b[i]]
+        if bad:
+            raise HarnessError('same process, same seed: digests differ for runs %r' % bad[:5])
+        for hs in (12345, 99):
+            f = _fresh_interpreter_digests(mod.PROPERTY, seed, tier, n, root, hashseed=hs)
+            bad = [i for i in a if a[i] != f[i]]
+            if bad:
+                raise HarnessError('fresh interpreter PYTHONHASHSEED=%d: digests differ for runs %r' % (hs, bad[:5]))
+        for workers in (1, 16):
+            got = {}
+            for summ in _pool_run([('seeded', s0, 20, n) for s0 in range(0, n, 20)], workers):
+                got.update(summ['digests'])
+            bad = [i for i in a if a[i] != got.get(i)]
+            if bad:
+                raise HarnessError('%d workers: digests differ for runs %r' % (workers, bad[:5]))
+        print('determinism: %d seeds x 6 executions agree' % n)
+        fid = getattr(mod, 'fidelity_selftest', None)
+        if fid is not None:
+            msg = fid(seed)
+            print('stub fidelity: ' + msg)
+        # reach: required probes must be hit in a short batch
+        req = getattr(mod, 'REQUIRED_PROBES', [])
+        if req:
+            total = _summ_new()
+            fixed_n = len(mod.fixed_cases(tier))
+            jobs = [('fixed', s0, min(200, fixed_n - s0), 0) for s0 in range(0, min(fixed_n, 4000), 200)]
+            jobs += [('seeded', s0, 200, 0) for s0 in range(0, 6000, 200)]
+            for summ in _pool_run(jobs, 16):
+                _merge(total, summ)
+            missing = [p for p in req if not (total['probes'].get(p) or total['faults'].get(p))]
+            if missing:
+                raise HarnessError('probes never reached in %d runs: %r (the workload mix must change)'
+                                   % (total['runs'], missing))
+            print('reach: all %d required probes hit in %d runs' % (len(req), total['runs']))
+    except HarnessError as e:
+        print('HARNESS-ERROR %s' % e, flush=True)
+        return 2
+    print('selftest %s ok' % mod.PROPERTY)
+    return 0
